@@ -14,19 +14,30 @@ TBY   == MT("b", "y", <<>>)
 TBYP  == MT("b", "y", <<P1>>)
 TSS   == MT("*", "*", <<>>)
 
-MCKeys     == {TAX, TAS, TBY}
-MCCTypes   == {TAX, TAXP, TAY, TBY, AnyType, NoType}
+R1 == Pm("r", "1")
+P2 == Pm("p", "2")
+TAXPR == MT("a", "x", <<P1, R1>>)     \* the parameterised key's type with an extra parameter (charset)
+TAXRP == MT("a", "x", <<R1, P1>>)     \* ... with the parameters written in the other order
+TAXP2 == MT("a", "x", <<P2>>)         \* ... differing in the parameter
+(* keys: a bare key next to a parameterised key of the same type (application/json, application/json; version=2),
+   a subtype wildcard (the full wildcard joins them in the simulated histories); both insertion orders arise from Init + Set / SetDefault / Update and
+   from Pop / Del followed by re-registration *)
+MCKeys     == {TAX, TAXP, TAS}
+(* content types as written: literal and otherwise spelled, extra / reordered / differing parameters, q = 0 at
+   both ends, a positive q inside *)
+MCCTypes   == {Lit(TAX), Lit(TAXP), Alt(TAXP), Alt(TAXPR), Lit(TAXP2), Lit(TBY), Wq(TAXP, 0, 1), AnyType, NoType}
+AllCTypes  == MCCTypes \cup {Alt(TAX), Lit(TAXRP), Lit(TAY), Wq(TAX, 0, 0), Wq(TAXP, 0, 0), Wq(TAXPR, 500000, 1)}
 MCDefaults == {TAX, TBY}
-MCNoRaise  == {<<TAX, TAX>>}
+MCNoRaise  == {<<Lit(TAX), TAX>>}
 SimKeys    == {TAX, TAXP, TAS, TBY, TSS}
-SimCTypes  == {TAX, TAXP, TAY, TBY, NoType}
+SimCTypes  == AllCTypes \cup {Lit(TAXPR), Alt(TAXRP), Wq(TAXPR, 0, 2), Wq(TAY, 0, 0), Wq(TAXP2, 400, 0)}
 SimDefaults == {TAX, TBY}
 
 Keep == UNCHANGED h
 Log  == h' = Append(h, last')
 Bound == TLCGet("level") <= Depth
 (* which mutation produced a state is irrelevant for the exhaustive instance *)
-View == <<objs, IF last.op = "resolve" THEN last ELSE Rec("mut", 0, NOKEY, 0, NOKEY, NOKEY, FALSE, 0, FALSE)>>
+View == <<objs, IF last.op = "resolve" THEN last ELSE Rec("mut", 0, NOKEY, 0, NOCT, NOKEY, FALSE, 0, FALSE)>>
 
 XSet(o)        == \E k \in Keys, v \in HandlerIds : Set(o, k, v)
 XSetDefault(o) == \E k \in Keys, v \in HandlerIds : SetDefault(o, k, v)
@@ -67,8 +78,11 @@ MCIndependent == [][\A o \in DOMAIN objs : (last'.op \notin {"copy"} /\ last'.o 
    mapping after every call rides along so the harness can compare the public view *)
 Emit == (Len(h) = Depth) => PrintT(ToJson([ev |-> h]))
 NoDs == {}
+IsRes == last'.op = "resolve"
 LogFull == h' = Append(h, [call |-> last', maps |-> [o \in DOMAIN objs' |-> objs'[o].map],
-                           ds |-> IF last'.op = "resolve" THEN DesignatedSet(objs'[last'.o].map, last'.ct, last'.d) ELSE NoDs])
+                           ds |-> IF IsRes THEN DesignatedSet(objs'[last'.o].map, last'.ct, last'.d) ELSE NoDs,
+                           sc |-> IsRes /\ ShortcutApplies(objs'[last'.o].map, last'.ct, last'.d),
+                           rule |-> IF IsRes THEN RuleDesignated(objs'[last'.o].map, last'.ct, last'.d) ELSE NONE])
 FSet        == (\E o \in DOMAIN objs : XSet(o)) /\ LogFull
 FSetDefault == (\E o \in DOMAIN objs : XSetDefault(o)) /\ LogFull
 FDel        == (\E o \in DOMAIN objs : XDel(o)) /\ LogFull
@@ -78,7 +92,7 @@ FUpdateFail == (\E o \in DOMAIN objs : XUpdateFail(o)) /\ LogFull
 FClear      == (\E o \in DOMAIN objs : Clear(o)) /\ LogFull
 FCopy       == (\E o \in DOMAIN objs : Copy(o)) /\ LogFull
 FResolve    == (\E o \in DOMAIN objs : XResolve(o)) /\ LogFull
-FInit == Init /\ h = <<[call |-> last, maps |-> [o \in DOMAIN objs |-> objs[o].map], ds |-> NoDs]>>
+FInit == Init /\ h = <<[call |-> last, maps |-> [o \in DOMAIN objs |-> objs[o].map], ds |-> NoDs, sc |-> FALSE, rule |-> NONE]>>
 FNext == FSet \/ FSetDefault \/ FDel \/ FPop \/ FUpdate \/ FUpdateFail \/ FClear \/ FCopy \/ FResolve \/ FResolve \/ FResolve
 EmitFull == (Len(h) = Depth + 1) => PrintT(ToJson([ev |-> h]))
 =============================================================================
